@@ -305,7 +305,10 @@ def rule_own_context(ctx):
     ctx.floor("C03.e traces", n, 8)
 
 
+from .c14 import rule_typestate as rule_connect_context  # noqa: E402  (the context set at connect is part of C03)
+
 RULES = [
+    ("C03.f", rule_connect_context, ("quick", "thorough")),
     ("C03.a", rule_handle, ("quick", "thorough")),
     ("C03.b", rule_after_accept, ("quick", "thorough")),
     ("C03.c", rule_coherence, ("quick", "thorough")),
